@@ -38,6 +38,8 @@ def _inputs(h, weighted_opt=True):
         w = h.vec('w', n)
         # point masses accept weights of any sign; what the formulas need is a non-zero total
         h.assume(' + '.join('w[%d]' % i for i in range(n)) + ' != 0', w=w)
+        if not h.is_sym():      # cross-check in floats: a total that is non-zero by rounding alone says nothing
+            h.assume('abs(%s) > 1e-6 * (%s)' % (' + '.join('w[%d]' % i for i in range(n)), ' + '.join('abs(w[%d])' % i for i in range(n))), w=w)
     return n, x, w
 
 
@@ -74,6 +76,17 @@ def _sum(xs, n):
     return '(%s)' % ' + '.join('%s[%d]' % (xs, i) for i in range(n))
 
 
+def _well_conditioned(h, n, x, w, wn):
+    """CPython cross-check only: a sample whose variance is positive by rounding alone (all the weight on one point: the
+    real-number precondition `variance > 0` is false, the float one holds at 1e-29) says nothing about the transform"""
+    if h.is_sym():
+        return
+    scale = ' + '.join('x[%d] * x[%d]' % (i, i) for i in range(n))
+    h.assume('abs(%s) > 1e-6 * (1 + %s)' % (_var('x', n, wn), scale), x=x, w=w)
+    if wn:
+        h.assume('abs(%s) > 1e-6 * (%s)' % (' + '.join('w[%d]' % i for i in range(n)), ' + '.join('abs(w[%d])' % i for i in range(n))), w=w)
+
+
 @contract('C18/impose_variance', ['C18'], F + '::impose_variance', samples=200)
 def impose_variance(h):
     """non-degenerate samples (variance > 0, as the statement requires) and a target v >= 0"""
@@ -84,6 +97,7 @@ def impose_variance(h):
     v = h.real('v')
     wn = 'w' if w is not None else None
     h.assume('v >= 0 and %s > 0' % _var('x', n, wn), v=v, x=x, w=w)
+    _well_conditioned(h, n, x, w, wn)
     x0 = h.snapshot(x)
     y = h.call(h.get(F + '::impose_variance'), v, x, w)
     e = dict(y=y, x0=x0, w=w, v=v, n=n)
@@ -100,6 +114,7 @@ def impose_std(h):
     s = h.real('s')
     wn = 'w' if w is not None else None
     h.assume('s >= 0 and %s > 0' % _var('x', n, wn), s=s, x=x, w=w)
+    _well_conditioned(h, n, x, w, wn)
     x0 = h.snapshot(x)
     y = h.call(h.get(F + '::impose_std'), s, x, w)
     e = dict(y=y, x0=x0, w=w, s=s, n=n)
